@@ -79,7 +79,7 @@ class C11(object):
             T = rng.randint(2, 8)
             return {'kind': 'switch', 'which': kind, 'maxtime': T, 'p': rng.randint(1, T),
                     'cap': rng.choice([0, 1, 2, 5, 11, 12, 20, 50]), 'tol': 10 ** rng.uniform(-10, -2),
-                    'reduction': rng.random() < 0.5, 'stepwise': rng.random() < 0.4}
+                    'reduction': rng.random() < 0.5, 'stepwise': rng.random() < 0.4, 'with_lag': rng.random() < 0.75}
         if m in (5, 6, 7):
             n = rng.randint(1, 12)
             spec = G.gen_affine(rng, n_simul=n, rho=rng.choice([0.8, 0.8, 0.79, 0.5, 0.2]), tol=None,
@@ -157,6 +157,9 @@ class C11(object):
         T = case['maxtime'] if T is None else T
         p = case['p']
         A = [benign if k < p else hostile for k in range(case['maxtime'] + 1)]
+        if case.get('with_lag', True):
+            # lagged and derived variables ride along: their series must stay in step with the others after a failure
+            eqs = eqs + '\nLAG_x = x(k-1)\nzz = 0.25*LAG_x + 1\nww = 2*zz'
         text = '%s\nMaxTime = %d\nexogenous\nA = %r' % (eqs, T, A)
         return text, persistent
 
